@@ -4,23 +4,27 @@
   PARTIAL BY NATURE: the kernel and the monotonic clock are an environment with a contract (time only moves forward, a timer
   entry is popped only when its deadline has passed); promptness (how late a time-out fires) is measured, never asserted.
 
-  Model: `Model/Io.lean` (`run (init co) sched`: every schedule of callers, kernel tails, selector / timer-handler / canceller
-  threads and the environment). Two parts of the property are FALSE of the pinned tree; they are not modelled away: the model
-  contains the behaviour, the negation is proved with a concrete schedule (`…_witness`), the same history is reproduced on the
-  real code by a live scenario family, and a minimal fix is proposed:
-    * `io_cancel_leaves_timer_armed_witness` – `CancelIoImpl::cancel` does not disarm the io timer of the operation it interrupts;
-      on a socket that outlives the cancelled coroutine the timer fires into a LATER operation, even one without a time-out
-      (live family `io_cancel_shared`; pending_fixes/io-cancel-disarm-timer.patch);
-    * `io_timeout_lost_witness` – `subscribe` arms the timer before it publishes the coroutine; a timer that fires in between is
-      lost and the operation blocks for ever (live family `io_timeout_race`; pending_fixes/io-timeout-arm-before-publish.patch;
-      this is the io twin of DESIGN §7 F6).
-  F2 (owned by wp-time: `AtomicDuration` truncated to whole milliseconds and stored a sub-millisecond time-out as "none") has been
-  fixed in /repo; `io_timeout_not_early` is about the fixed, rounding-up conversion and holds for every duration,
-  `io_timeout_truncation_f2` records what the truncating conversion did. The scenarios use whole and non-integral milliseconds
-  (sub-millisecond ones in the race family).
+  Model: `Model/Io.lean`. Every theorem is about `run (init co) sched` – the code of /repo HEAD with the io fixes 128a1d4
+  (owned `io_data` / handle before publication), 999f25c (`timeout_handler` raises IO_FLAG_TIMEOUT before its `co.take`; a
+  `subscribe` that armed the timer but had not yet published the coroutine sees it in its re-check, re-runs the coroutine, which
+  retries and arms a fresh timer), 8f0e7f9 (`CancelIoImpl::cancel` disarms the io timer), aafec99 (CoIo field order; not in the
+  model, it has no fd numbers) – for every schedule of callers, kernel tails, selector / timer-handler / canceller threads and
+  the environment. The behaviours of the pinned tree are kept as LABELLED WITNESSES on the model variant `initPinned`
+  (`fixFlag = fixDis = false`), each reproduced on the real pinned code by a live family that now runs as a regression scenario:
+    * `io_cancel_leaves_timer_armed_witness` (family `io_cancel_shared`) – fixed by 8f0e7f9: `io_cancel_timer_disarmed`;
+    * `io_timeout_lost_witness` (family `io_timeout_race`) – fixed by 999f25c: `io_timeout_returns` (the io twin of F6, full).
+  STILL FALSE of /repo HEAD, not modelled away (`io_stalled_timer_handler_witness`): a timeout handler that is delayed between
+  popping its entry and its `co.take` can take the coroutine of a LATER wait on the same socket (one way there is the very retry
+  of 999f25c); that wait ends with TimedOut and ITS timer stays armed and unreferenced – it fires into the next operation, or
+  into freed event data once the socket is closed. Together with the unsynchronised `RefCell` timer-handle cell and
+  `with_mut_data` on a popped entry (both panic on a worker thread, seen in the race family) this is
+  pending_fixes/io-timer-handle-race.patch (README-io.md no. 5); `io_timer_no_leak_to_next_op` therefore stays step-level plus
+  `io_disarmed_stays_disarmed`, the global form is stated in its comment.
+  F2 (`AtomicDuration` truncation) is fixed in /repo: `io_timeout_not_early` is about the rounding-up conversion and holds for
+  every duration, `io_timeout_truncation_f2` records what the truncating conversion did.
 -/
-import MayVerif.Proof.Io.Step
-import MayVerif.Proof.Io.Timer
+import MayVerif.Proof.Io.Step5
+import MayVerif.Props.C17
 import MayVerif.Proof.Io.Frame
 namespace MayVerif.Io
 
@@ -153,14 +157,14 @@ theorem io_disarmed_stays_disarmed (co : Co → Bool) (sched more : List (Actor 
     · next st' hs => exact ih st' (dead_step st st' a e t h hd hs) (inv3_step _ _ _ _ h hs)
     · exact ih st hd h
 
-/-- **Defect witness (pinned tree): cancel leaves the io timer armed.** Coroutine 0 blocks in a read with a 50 ms time-out on
+/-- **Defect witness (PINNED tree, model variant `initPinned`; fixed in /repo by 8f0e7f9): cancel leaves the io timer armed.** Coroutine 0 blocks in a read with a 50 ms time-out on
     socket 5 and is cancelled; it ends with Cancel, the socket lives on. Coroutine 2 then blocks in a read WITHOUT a time-out
     (`dur 2 = none`) on the same socket – and ends with TimedOut when the stale entry 0 fires.
     Full statement that therefore does not hold: "an operation ends with TimedOut only through a timer armed by that operation". -/
 theorem io_cancel_leaves_timer_armed_witness :
-    ∃ sched, (run (init fun _ => true) sched).upc 0 = .done .canceled ∧
-             (run (init fun _ => true) sched).dur 2 = none ∧
-             (run (init fun _ => true) sched).upc 2 = .done .timedOut :=
+    ∃ sched, (run (initPinned fun _ => true) sched).upc 0 = .done .canceled ∧
+             (run (initPinned fun _ => true) sched).dur 2 = none ∧
+             (run (initPinned fun _ => true) sched).upc 2 = .done .timedOut :=
   ⟨[(.u 0, .start 5 true), (.u 0, .go), (.u 0, .sysAgain true true), (.u 0, .durv 50), (.u 0, .go),
     (.k 0, .go), (.k 0, .go), (.k 0, .go), (.k 0, .go), (.k 0, .go), (.k 0, .go),
     (.w 0, .cancel 0), (.w 0, .go), (.w 0, .go),
@@ -170,22 +174,109 @@ theorem io_cancel_leaves_timer_armed_witness :
     (.env, .tick 50000000), (.w 1, .fire 0), (.w 1, .go),
     (.u 2, .go), (.u 2, .go)], by decide⟩
 
-/-- **Defect witness (pinned tree): a time-out armed before the coroutine is published can be lost.** The 1 ms timer of caller 0
+/-- **Defect witness (PINNED tree, model variant `initPinned`; fixed in /repo by 999f25c): a time-out armed before the coroutine is
+    published can be lost.** The 1 ms timer of caller 0
     fires between `add_io_timer` and `co.store`: the handler finds the slot empty. Afterwards everything is quiet, the caller is
     suspended in the slot with a time-out in force (`dur 0 = some 1 ms`) and the only entry ever armed is gone: unless data arrives
     the operation never returns. Full statement that therefore does not hold: "a timed operation on which nothing arrives ends
     with TimedOut". -/
 theorem io_timeout_lost_witness :
-    ∃ sched, (run (init fun _ => true) sched).upc 0 = .wait 5 ∧ (run (init fun _ => true) sched).slot 5 = some 0 ∧
-             (run (init fun _ => true) sched).dur 0 = some 1000000 ∧
-             (run (init fun _ => true) sched).nextTm = 1 ∧ (run (init fun _ => true) sched).tm 0 = .gone ∧
-             (run (init fun _ => true) sched).tslot 5 = none ∧
-             (run (init fun _ => true) sched).nk = 1 ∧ (run (init fun _ => true) sched).kpc 0 = .off ∧
-             (run (init fun _ => true) sched).wpc 0 = .idle :=
+    ∃ sched, (run (initPinned fun _ => true) sched).upc 0 = .wait 5 ∧ (run (initPinned fun _ => true) sched).slot 5 = some 0 ∧
+             (run (initPinned fun _ => true) sched).dur 0 = some 1000000 ∧
+             (run (initPinned fun _ => true) sched).nextTm = 1 ∧ (run (initPinned fun _ => true) sched).tm 0 = .gone ∧
+             (run (initPinned fun _ => true) sched).tslot 5 = none ∧
+             (run (initPinned fun _ => true) sched).nk = 1 ∧ (run (initPinned fun _ => true) sched).kpc 0 = .off ∧
+             (run (initPinned fun _ => true) sched).wpc 0 = .idle :=
   ⟨[(.u 0, .start 5 true), (.u 0, .go), (.u 0, .sysAgain true true), (.u 0, .durv 1), (.u 0, .go),
     (.k 0, .go), (.k 0, .go),
     (.env, .tick 1000000), (.w 0, .fire 0), (.w 0, .go),
     (.k 0, .go), (.k 0, .go), (.k 0, .go), (.k 0, .go)], by decide⟩
+
+/-! ### a time-out cannot be lost; cancel disarms the timer (what the fixes 999f25c and 8f0e7f9 make true) -/
+
+/-- **A timed operation returns** (the io twin of F6, full): when every kernel tail has finished and every selector / timer /
+    canceller thread is between two events, a caller that is switched off in an operation on socket `s` with a time-out `d` in
+    force is either already in a run queue, or it sits in the `co` slot and the socket's timer handle refers to an entry that is
+    still ARMED for `s`, carries exactly the caller's time-out (`tdur t = d`, deadline = arm time + `d`), and whose pop by the
+    timeout handler is enabled as soon as its deadline has passed – the time-out cannot be lost, whatever the timing of the timer
+    relative to `add_io_timer` / `co.store` / the re-check was. (On the pinned tree: `io_timeout_lost_witness`.) -/
+theorem io_timeout_returns (co : Co → Bool) (sched : List (Actor × Env)) (c : Co) (s : Sock) (d : Nat)
+    (hq : Quiescent (run (init co) sched)) (hw : (run (init co) sched).upc c = .wait s)
+    (hd : (run (init co) sched).dur c = some d) :
+    (run (init co) sched).queued c = true ∨
+    ((run (init co) sched).slot s = some c ∧
+     ∃ t, (run (init co) sched).tslot s = some t ∧ (run (init co) sched).tm t = .armed s ∧ (run (init co) sched).tdur t = d ∧
+          (run (init co) sched).deadline t = (run (init co) sched).armedAt t + d ∧
+          ∀ w, (run (init co) sched).deadline t ≤ (run (init co) sched).now →
+               (step (run (init co) sched) (.w w) (.fire t)).isSome = true) := by
+  have hserved := io_blocked_caller_is_served co sched c s hq hw
+  have h := invT_run _ sched (invT_init co)
+  generalize run (init co) sched = st at *
+  rcases hserved with hqd | ⟨hslot, hflag, _⟩
+  · exact Or.inl hqd
+  · refine Or.inr ⟨hslot, ?_⟩
+    have hp : fPend (st.wpc (st.lastFire s)) s = false := by simp [hq.2 _, fPend]
+    obtain ⟨h1, h2, h3⟩ := h.i5.ts s c hslot (by simp [hd]) hflag hp
+    cases hl : st.lastArm s with
+    | none => simp [hl] at h2
+    | some t =>
+      have harm := h3 t hl
+      have htd := h.i6.c s c t d hslot hl hd
+      have hlt := (h.i5.ta s t hl).1
+      have hdl := h.i3.t2 t hlt
+      refine ⟨t, by rw [h1, hl], harm, htd, by rw [hdl, htd], ?_⟩
+      intro w hdead
+      simp [step, hq.2 w, wstep, hdead, harm]
+
+/-- **Cancel disarms the io timer** (8f0e7f9; on the pinned tree: `io_cancel_leaves_timer_armed_witness`): in every reachable state
+    of the fixed code, the canceller's `co.take` that finds the coroutine takes the timer handle out of the socket and leaves its
+    entry not armed (`event_data = null`), in the same step that schedules the coroutine – for a cancel by another thread and for
+    the kernel tail's own re-check alike. By `io_timer_no_leak_to_next_op` / `io_disarmed_stays_disarmed` that entry never resumes
+    anything again. -/
+theorem io_cancel_timer_disarmed (co : Co → Bool) (sched : List (Actor × Env)) (s : Sock) (c : Co) (a : Actor) (e : Env) (st' : St)
+    (ha : (∃ w, a = .w w ∧ (run (init co) sched).wpc w = .xtake s) ∨ (∃ k, a = .k k ∧ (run (init co) sched).kpc k = .xtake s))
+    (hslot : (run (init co) sched).slot s = some c) (hs : step (run (init co) sched) a e = some st') :
+    st'.slot s = none ∧ st'.tslot s = none ∧ st'.queued c = true ∧
+    (∀ t, (run (init co) sched).tslot s = some t → ∀ s', st'.tm t ≠ .armed s') := by
+  have hf : (run (init co) sched).fixDis = true := by simpa [init, initCfg] using (cfg_run (init co) sched).2.1
+  generalize run (init co) sched = st at *
+  have key : ∀ t, st.tslot s = some t → ∀ s', disarmTm st.tm (st.tslot s) t ≠ .armed s' := by
+    intro t ht s'
+    simp only [ht, disarmTm, upd, if_true]
+    cases st.tm t <;> simp [unarm]
+  rcases ha with ⟨w, rfl, hpc⟩ | ⟨k, rfl, hpc⟩
+  · simp only [step, hpc, wstep, xtakeStep, hslot, hf, if_true, schedule, disarm, Option.some.injEq] at hs
+    subst hs
+    exact ⟨by simp [upd], by simp [upd], by simp [upd], key⟩
+  · simp only [step, hpc, kstep, xtakeStep, hslot, hf, if_true, schedule, disarm, Option.some.injEq] at hs
+    subst hs
+    exact ⟨by simp [upd], by simp [upd], by simp [upd], key⟩
+
+/-- **Open defect witness (/repo HEAD, model `init`): a delayed timeout handler takes the coroutine of a LATER wait.** The 1 ms timer
+    (entry 0) of caller 0 on socket 5 fires; the handler raises IO_FLAG_TIMEOUT and is then delayed before its `co.take`. The kernel
+    tail's re-check sees the flag and re-runs the coroutine (the retry of 999f25c): EAGAIN again, a fresh timer (entry 1), published
+    again. Now the delayed handler takes it: the operation ends with TimedOut (not early for THIS operation) – but entry 1 stays armed
+    with its handle still in the socket and nobody waiting. Caller 2 then blocks on the same socket WITHOUT a time-out (`dur 2 = none`)
+    and is timed out when entry 1 fires. Full statement that therefore does not hold on HEAD: "every armed entry belongs to the wait in
+    progress on its socket" / "an operation ends with TimedOut only through a timer armed by that operation".
+    (pending_fixes/io-timer-handle-race.patch makes the handler check, under the handle cell's lock, that its entry is still the one of
+    the wait in progress.) -/
+theorem io_stalled_timer_handler_witness :
+    ∃ sched, (run (init fun _ => true) sched).upc 0 = .done .timedOut ∧
+             (run (init fun _ => true) sched).dur 2 = none ∧
+             (run (init fun _ => true) sched).upc 2 = .done .timedOut :=
+  ⟨[(.u 0, .start 5 true), (.u 0, .go), (.u 0, .sysAgain true true), (.u 0, .durv 1), (.u 0, .go),
+    (.k 0, .go), (.k 0, .go), (.k 0, .go),
+    (.env, .tick 1000000), (.w 0, .fire 0), (.w 0, .go),
+    (.k 0, .go), (.k 0, .go),
+    (.u 0, .go), (.u 0, .go), (.u 0, .go), (.u 0, .sysAgain true true), (.u 0, .go), (.u 0, .go),
+    (.k 1, .go), (.k 1, .go), (.k 1, .go),
+    (.w 0, .go),
+    (.u 0, .go), (.u 0, .go),
+    (.u 2, .start 5 true), (.u 2, .go), (.u 2, .sysAgain true true), (.u 2, .durv 0), (.u 2, .go),
+    (.k 2, .go), (.k 2, .go), (.k 2, .go), (.k 2, .go),
+    (.env, .tick 1000000), (.w 1, .fire 1), (.w 1, .go), (.w 1, .go),
+    (.u 2, .go), (.u 2, .go)], by decide⟩
 
 /-! ### cancel ends the operation with Cancel -/
 
@@ -205,12 +296,14 @@ theorem io_cancel_ends_with_cancel_partial :
         st'.upc c = .done .canceled ∧ st'.user s = none) ∧
     (∀ (st st' : St) (c : Co) (s : Sock) (e : Env), st.upc c = .pre s → st.isCo c = true → st.cbit c = true →
         step st (.u c) e = some st' → st'.upc c = .back s ∧ st'.nk = st.nk ∧ st'.kpc = st.kpc) ∧
-    (∀ (st : St) (w : Wk) (c : Co) (s : Sock), st.wpc w = .idle → st.cio c = some s → st.slot s = some c → st.queued c = false →
+    (∀ (st : St) (w : Wk) (c : Co) (s : Sock), st.fixDis = true → st.wpc w = .idle → st.cio c = some s → st.slot s = some c →
+        st.queued c = false →
         let st' := run st [(.w w, .cancel c), (.w w, .go), (.w w, .go)]
-        st'.cbit c = true ∧ st'.slot s = none ∧ st'.queued c = true ∧ st'.dup = st.dup ∧ st'.wpc w = .idle) ∧
-    (∀ (st : St) (k : Kt) (c : Co) (s : Sock), st.kpc k = .reg s c → st.cbit c = true → st.slot s = some c → st.queued c = false →
+        st'.cbit c = true ∧ st'.slot s = none ∧ st'.queued c = true ∧ st'.dup = st.dup ∧ st'.wpc w = .idle ∧ st'.tslot s = none) ∧
+    (∀ (st : St) (k : Kt) (c : Co) (s : Sock), st.fixDis = true → st.kpc k = .reg s c → st.cbit c = true → st.slot s = some c →
+        st.queued c = false →
         let st' := run st [(.k k, .go), (.k k, .go), (.k k, .go), (.k k, .go), (.k k, .go)]
-        st'.slot s = none ∧ st'.queued c = true ∧ st'.dup = st.dup ∧ st'.kpc k = .off) := by
+        st'.slot s = none ∧ st'.queued c = true ∧ st'.dup = st.dup ∧ st'.kpc k = .off ∧ st'.tslot s = none) := by
   refine ⟨?_, ?_, ?_, ?_⟩
   · intro st st' c s e hpc hb hs
     simp only [step, hpc, ustep, hb, if_true, finish, Option.some.injEq] at hs
@@ -220,10 +313,10 @@ theorem io_cancel_ends_with_cancel_partial :
     simp only [step, hpc, ustep, hco, hb, Bool.and_self, if_true, Option.some.injEq] at hs
     subst hs
     simp [upd]
-  · intro st w c s hpc hcio hslot hq
-    simp [run, step, wstep, hpc, upd, hcio, xtakeStep, hslot, schedule, hq]
-  · intro st k c s hpc hb hslot hq
-    simp [run, step, kstep, hpc, upd, hb, xtakeStep, hslot, schedule, hq]
+  · intro st w c s hf hpc hcio hslot hq
+    simp [run, step, wstep, hpc, upd, hcio, xtakeStep, hslot, schedule, hq, hf, disarm]
+  · intro st k c s hf hpc hb hslot hq
+    simp [run, step, kstep, hpc, upd, hb, xtakeStep, hslot, schedule, hq, hf, disarm]
 
 /-! ### other sockets are not disturbed -/
 
@@ -269,7 +362,16 @@ example : (run (init fun _ => true)
 example : (run (init fun _ => true)
     [(.u 0, .start 5 true), (.u 0, .go), (.u 0, .sysAgain true true), (.u 0, .durv 20), (.u 0, .go),
      (.k 0, .go), (.k 0, .go), (.k 0, .go), (.k 0, .go), (.k 0, .go), (.k 0, .go),
-     (.env, .tick 20000000), (.w 0, .fire 0), (.w 0, .go), (.u 0, .go), (.u 0, .go)]).upc 0 = .done .timedOut := by decide
+     (.env, .tick 20000000), (.w 0, .fire 0), (.w 0, .go), (.w 0, .go), (.u 0, .go), (.u 0, .go)]).upc 0 = .done .timedOut := by decide
+-- the F6 window on the fixed code: the timer fires between `add_io_timer` and `co.store`; the flag makes the tail re-run the coroutine,
+-- it retries, re-arms (entry 1) and waits with an armed timer – the state `io_timeout_returns` describes
+example : (run (init fun _ => true)
+    [(.u 0, .start 5 true), (.u 0, .go), (.u 0, .sysAgain true true), (.u 0, .durv 1), (.u 0, .go),
+     (.k 0, .go), (.k 0, .go),
+     (.env, .tick 1000000), (.w 0, .fire 0), (.w 0, .go), (.w 0, .go),
+     (.k 0, .go), (.k 0, .go), (.k 0, .go), (.k 0, .go),
+     (.u 0, .go), (.u 0, .go), (.u 0, .go), (.u 0, .sysAgain true true), (.u 0, .go), (.u 0, .go),
+     (.k 1, .go), (.k 1, .go), (.k 1, .go), (.k 1, .go), (.k 1, .go), (.k 1, .go)]).tm 1 = .armed 5 := by decide
 -- cancel of a coroutine blocked in a read: registered, taken by the canceller, resumed, Cancel; a transfer on socket 9 is not touched
 example : (run (init fun _ => true)
     [(.u 0, .start 5 true), (.u 0, .go), (.u 0, .sysAgain true true), (.u 0, .durv 0), (.u 0, .go),
